@@ -21,7 +21,8 @@ META = {
     "text": "Model family: ten types x {unnamed, named} x {no constraint, one, two (one with ancillas)} x {refreshed, stale after a cancelling edit} x 4 polynomials (+ label schemes in thorough). "
             "(i) create_from_info(get_info(M)) reproduces type, terms, name, mapping, num_ancillas, constraints and get_info is a fixpoint; (ii) for each accessor {copy(), copy constructor, "
             "mapping, reverse_mapping, variables, constraints, every polynomial inside constraints} every mutation from a menu of 6 is applied to the returned object (M must be unchanged) "
-            "and to M (the returned object must be unchanged); (iii) every public function of qubovert.utils/sat/sim and every model method that takes a model, dict, solution or constraint "
+            "and to M (the returned object must be unchanged), and the same both-direction independence after every operation that combines two models "
+            "(update, +=, -=, *=, +, *, copy constructor; constrained and unconstrained operands); (iii) every public function of qubovert.utils/sat/sim and every model method that takes a model, dict, solution or constraint "
             "polynomial is called with snapshotted arguments which must be unchanged afterwards; uncovered public callables are listed in the evidence.",
     "note": "Bounded model family. Annealers run on the rebuilt C extension with a fixed seed and short schedules.",
 }
@@ -44,6 +45,11 @@ def gen_cases(tier):
                             cons = (0, 1, 2) if typ in ("PCBO", "PCSO") else (0,)
                             for con in cons:
                                 yield {"part": "model", "type": typ, "poly": pi, "scheme": sch, "named": named, "stale": stale, "constraints": con}
+        for typ in gen.BOOL_CONTAINERS[1:] + gen.SPIN_CONTAINERS[1:]:
+            for op in PAIR_OPS:
+                for bcon in ((0, 1, 2) if typ in ("PCBO", "PCSO") else (0,)):
+                    for acon in ((0, 1) if typ in ("PCBO", "PCSO") else (0,)):
+                        yield {"part": "pairop", "type": typ, "op": op, "a_constraints": acon, "b_constraints": bcon}
         for name in sorted(REGISTRY):
             yield {"part": "registry", "entry": name}
         yield {"part": "completeness"}
@@ -198,6 +204,84 @@ def check_model(case, st):
         # (the statement only promises independence; that a copy carries the same type and terms is the minimum meaning of "copy")
         if isinstance(C, Raised) or type(C) is not type(M) or dict(C) != dict(M):
             v("copy-differs|%s" % aname, "%s gives %s" % (aname, short(C)))
+
+
+# ------------------------------------------------------------------------------------ (ii') operations that combine two models
+
+PAIR_OPS = ("update", "iadd", "isub", "imul", "add", "mul", "copy-constructor", "update-then-copy")
+
+
+def check_pairop(case, st):
+    """After an operation that takes a model b as argument, a and b must stay independent under ANY later mutation of either."""
+    qv = paths.import_qubovert()
+    typ = case["type"]
+    sch = "int" if typ in gen.MATRIX else "str"
+    L = gen.labels_for(sch, 4)
+    st.nontrivial += 1
+
+    def mk(which, ncon):
+        D = gen.relabel({(0,): 1, (0, 1): -2} if which == "a" else {(1,): 2, (1, 2): 1, (): -1}, sch, 4)
+        M = gen.build(typ, D)
+        if ncon >= 1:
+            if which == "a":
+                M.add_constraint_eq_zero({(L[0],): 1, (L[1],): -1}, lam=1)          # a has kind 'eq' only
+            else:
+                M.add_constraint_le_zero({(L[0],): 1, (L[1],): 1, (): -1}, lam=2)   # b has kind 'le' ...
+        if ncon >= 2:
+            M.add_constraint_eq_zero({(L[1],): 1, (L[2],): -1}, lam=1)              # ... and 'eq'
+        return M
+
+    def apply(a, b):
+        op = case["op"]
+        if op == "update":
+            a.update(b)
+        elif op == "iadd":
+            a += b
+        elif op == "isub":
+            a -= b
+        elif op == "imul":
+            a *= b
+        elif op == "add":
+            a = a + b
+        elif op == "mul":
+            a = a * b
+        elif op == "copy-constructor":
+            a = type(b)(b)
+        elif op == "update-then-copy":
+            a.update(b)
+            a = a.copy()
+        return a
+
+    def v(kind, msg):
+        st.violation("pairop|%s|%s|%s" % (case["op"], kind, "PC" if typ in ("PCBO", "PCSO") else ("matrix" if typ in gen.MATRIX else "labelled")), case,
+                     "C19 %s, a = a %s b (a has %d, b has %d recorded constraints): %s" % (typ, case["op"], case["a_constraints"], case["b_constraints"], msg))
+    muts = mutations(L)
+    if typ in ("PCBO", "PCSO"):
+        muts = muts + [("add_constraint_le", lambda o: o.add_constraint_le_zero({(L[2],): 1, (L[3],): 1, (): -1}, lam=1)),
+                       ("add_constraint_ne", lambda o: o.add_constraint_ne_zero({(L[2],): 1, (L[3],): -1}, lam=1))]
+    for mname, mut in muts:
+        for direction in ("mutate-result", "mutate-argument"):
+            a, b = mk("a", case["a_constraints"]), mk("b", case["b_constraints"])
+            bb = snap(b)
+            r, _w = call(apply, a, b)
+            st.transitions += 1
+            st.traces += 1
+            if isinstance(r, Raised):
+                st.outcomes["operation raised " + r.kind] += 1
+                break
+            a = r
+            if snap(b) != bb:
+                v("argument-mutated", "the operation itself changed b")
+                break
+            if direction == "mutate-result":
+                call(mut, a)
+                if snap(b) != bb:
+                    v("aliased|" + mname, "mutating the result (%s) afterwards changed the argument b: %s" % (mname, short(getattr(b, "constraints", dict(b)), 200)))
+            else:
+                aa = snap(a)
+                call(mut, b)
+                if snap(a) != aa:
+                    v("aliased-reverse|" + mname, "mutating the argument b (%s) afterwards changed the result: %s" % (mname, short(getattr(a, "constraints", dict(a)), 200)))
 
 
 # ------------------------------------------------------------------------------------ (iii) registry
@@ -469,6 +553,8 @@ def check_completeness(case, st):
 def check(case, st):
     if case["part"] == "model":
         check_model(case, st)
+    elif case["part"] == "pairop":
+        check_pairop(case, st)
     elif case["part"] == "registry":
         check_registry(case, st)
     else:
